@@ -306,47 +306,14 @@ impl Property for C17 {
             .iter()
             .map(|k| (0..MODULE_PATHS.len()).filter(|&m| matches(k, &MODULE_PATHS[m].split('.').collect::<Vec<_>>()).is_some()).collect())
             .collect();
-        let mut combos: Vec<Vec<usize>> = vec![];
-        for i in 0..nk {
-            combos.push(vec![i]);
-            for j in (i + 1)..nk {
-                combos.push(vec![i, j]);
-                // triples: all keys (thorough) / keys with at most 2 path segments (quick)
-                let small = |k: usize| keys[k].len() - if keys[k].ends_with(&["y", "z"]) { 2 } else { 1 } <= 2;
-                for l in (j + 1)..nk {
-                    // quick: at most one of the three keys has three path segments
-                    let deep = usize::from(!small(i)) + usize::from(!small(j)) + usize::from(!small(l));
-                    if maxe >= 3 || deep <= 1 {
-                        combos.push(vec![i, j, l]);
-                    }
-                }
-            }
-        }
-        // the order of the entries in the file matters to the implementation (insertion-ordered
-        // mapping): every permutation of every set is a configuration of its own
-        let mut ordered: Vec<(Vec<usize>, bool)> = vec![];
-        for c in &combos {
-            match c.len() {
-                1 => ordered.push((c.clone(), true)),
-                2 => {
-                    ordered.push((c.clone(), true));
-                    ordered.push((vec![c[1], c[0]], true));
-                }
-                _ => {
-                    for (pi, p) in [[0, 1, 2], [0, 2, 1], [1, 0, 2], [1, 2, 0], [2, 0, 1], [2, 1, 0]].iter().enumerate() {
-                        ordered.push((vec![c[p[0]], c[p[1]], c[p[2]]], pi == 0 || maxe >= 3));
-                    }
-                }
-            }
-        }
-        for (combo, all_modes) in &ordered {
+        let mut handle = |ctx: &mut Ctx, combo: &[usize], all_modes: bool| {
             if !ctx.mine() {
-                continue;
+                return;
             }
             let first: Vec<&str> = combo.iter().map(|&k| keys[k][0]).collect();
             let any_addr = combo.iter().any(|&k| !addr[k].is_empty());
             for mode in [Mode::Before, Mode::After, Mode::Split] {
-                if mode == Mode::Split && (combo.len() == 1 || !*all_modes) {
+                if mode == Mode::Split && (combo.len() == 1 || !all_modes) {
                     continue;
                 }
                 ctx.out.evaluations += 1;
@@ -386,6 +353,26 @@ impl Property for C17 {
                         || json!({"kind": "matching", "entries": combo.iter().map(|&k| keys[k].join(".")).collect::<Vec<_>>(), "mode": format!("{mode:?}")}),
                         d,
                     ),
+                }
+            }
+        };
+        // every set of 1..3 keys, in every file order (the implementation keeps an insertion-ordered
+        // mapping, so each permutation is a configuration of its own); generated lazily
+        let small = |k: usize| keys[k].len() - if keys[k].ends_with(&["y", "z"]) { 2 } else { 1 } <= 2;
+        for i in 0..nk {
+            handle(ctx, &[i], true);
+            for j in (i + 1)..nk {
+                handle(ctx, &[i, j], true);
+                handle(ctx, &[j, i], true);
+                for l in (j + 1)..nk {
+                    // quick: at most one of the three keys has three path segments
+                    let deep = usize::from(!small(i)) + usize::from(!small(j)) + usize::from(!small(l));
+                    if maxe >= 3 || deep <= 1 {
+                        let c = [i, j, l];
+                        for (pi, p) in [[0, 1, 2], [0, 2, 1], [1, 0, 2], [1, 2, 0], [2, 0, 1], [2, 1, 0]].iter().enumerate() {
+                            handle(ctx, &[c[p[0]], c[p[1]], c[p[2]]], pi == 0 || maxe >= 3);
+                        }
+                    }
                 }
             }
         }
